@@ -218,6 +218,10 @@ func (sc *scanner) line(s *Section, w []string, t string) {
 	case "server-template":
 		s.Templates++
 	case "use_backend":
+		if len(w) < 2 {
+			// `use_backend` without a name: haproxy refuses it; kept as a reference to ""
+			s.Use = append(s.Use, "")
+		}
 		if len(w) >= 2 {
 			if m := dynUseRe.FindStringSubmatch(w[1]); m != nil {
 				s.UseDyn = append(s.UseDyn, Dyn{Var: m[1]})
@@ -226,6 +230,9 @@ func (sc *scanner) line(s *Section, w []string, t string) {
 			}
 		}
 	case "default_backend":
+		if len(w) < 2 {
+			s.Default = append(s.Default, "")
+		}
 		if len(w) >= 2 {
 			s.Default = append(s.Default, w[1])
 		}
